@@ -760,3 +760,67 @@ fn c10_0x2() {
     forget(sm);
     forget(adj);
 }
+
+// ---------------------------------------------------------------------------
+// C02: which sources a non-empty sourceRoot is joined to.  `format!` is stubbed (S4: it
+// returns an empty string), so the joined text itself is not observed; what is decided is
+// the classification: the name is kept as is exactly when it is absolute ('/', 'http:',
+// 'https:'), for every ASCII name of N bytes.
+fn c02_source_root_body<const N: usize>() {
+    let name: [u8; N] = kani::any();
+    let mut i = 0;
+    while i < N {
+        kani::assume(name[i] < 0x80 && name[i] != 0);
+        i += 1;
+    }
+    let s = unsafe { std::str::from_utf8_unchecked(&name) };
+    let joined = SourceMap::prefix_source("r", s);
+    let kept = joined.len() == N && {
+        let mut same = true;
+        let mut i = 0;
+        while i < N {
+            if joined.as_bytes()[i] != name[i] {
+                same = false;
+            }
+            i += 1;
+        }
+        same
+    };
+    let starts = |p: &[u8]| -> bool {
+        if p.len() > N {
+            return false;
+        }
+        let mut ok = true;
+        let mut i = 0;
+        while i < p.len() {
+            if name[i] != p[i] {
+                ok = false;
+            }
+            i += 1;
+        }
+        ok
+    };
+    let absolute = starts(b"/") || starts(b"http:") || starts(b"https:");
+    assert!(kept == absolute, "C02/source-root-joined-exactly-to-non-absolute-sources");
+    if N >= 6 {
+        kani::cover!(starts(b"https:"), "https url");
+        kani::cover!(starts(b"http") && !absolute, "relative name beginning with http");
+    }
+    kani::cover!(starts(b"/"), "absolute path");
+    forget(joined);
+}
+
+macro_rules! c02_source_root {
+    ($name:ident, $n:literal, $u:literal) => {
+        #[kani::proof]
+        #[kani::unwind($u)]
+        #[kani::stub(alloc::fmt::format, crate::vstubs::fmt_format)]
+        fn $name() {
+            c02_source_root_body::<$n>()
+        }
+    };
+}
+c02_source_root!(c02_source_root_n1, 1, 9);
+c02_source_root!(c02_source_root_n5, 5, 9);
+c02_source_root!(c02_source_root_n6, 6, 10);
+c02_source_root!(c02_source_root_n8, 8, 12);
